@@ -70,11 +70,14 @@ func init() {
 	})
 	register(&Property{
 		ID: "C19",
-		Explanation: "Decides the guards around existing files: (create-file) createFile reports success only through ensureSize (size is made right: truncate / sparse truncate), and an existing object is reused only on the IsRegular()==true and Links<=1 edges — otherwise it is removed and re-created with O_EXCL; (sparse-off-for-existing) in restoreFiles every path on which sparse writing may have been enabled for a file that already existed (file.state != nil) passes `file.sparse = false` before the iteration ends, and that store happens only for existing files; (overwrite-exhaustive) shouldOverwrite, evaluated for each OverwriteBehavior constant: always/if-changed never look at the existing file and never reach the 'unknown overwrite behavior' panic, if-newer/never examine it and are handled, never yields true only for ErrNotExist; the restore callback of withOverwriteCheck runs only on shouldOverwrite==true without error; (reuse-only-if-file-survives) verifyFile hands out a file state (the list of blobs already present, which the restorer then skips) only for regular files, and a state that still needs a restore only for targets with a single hard link — createFile replaces a target with several links by a new empty file, so reusing matches there leaves zeros where the skipped blobs belong; this is the genuine defect found with the seeded-change probe for this property, now fixed; (verify-reads-whole-blob) in verifyFile the hash is taken of the buffer ReadAt filled and only behind ReadAt's nil-error edge (the scratch buffer is reused between blobs and files, a short read leaves stale bytes in it), and the per-blob verdict stored is id.Equal(that hash) (added after a seeded change that hashed before the short-read test); (examined-or-nothing-reused) after a verifyFile error other than 'does not exist' the restore callback gets a non-nil state, which switches sparse writing off — an unreadable existing target was treated as missing and kept its old bytes in the zero runs (genuine defect, demonstrated, fixed); (link-target-only-when-restored) a name enters the hard-link index only inside the callback of withOverwriteCheck, i.e. when it is really restored — with --overwrite never/if-newer the other names were linked to an existing file that had been left untouched (genuine defect, demonstrated, fixed); (restore-errors-propagate) at each call site of the functions that carry file content to the target (restoreFiles, downloadPack, downloadBlobs, writeToFile, createFile, ensureSize, the tree walk, RestoreTo, VerifyFiles …) the error is bound and, from its non-nil edge, no return is reached unless it was returned or handed to the error callback — a restore in which a write failed is not a successful one (added after the mutant sweep). Not decided: equality of content and size after restore (runtime values).",
+		Explanation: "Decides the guards around existing files: (create-file) createFile reports success only through ensureSize (size is made right: truncate / sparse truncate), and an existing object is reused only on the IsRegular()==true and Links<=1 edges — otherwise it is removed and re-created with O_EXCL; (sparse-off-for-existing) in restoreFiles every path on which sparse writing may have been enabled for a file that already existed (file.state != nil) passes `file.sparse = false` before the iteration ends, and that store happens only for existing files; (overwrite-exhaustive) shouldOverwrite, evaluated for each OverwriteBehavior constant: always/if-changed never look at the existing file and never reach the 'unknown overwrite behavior' panic, if-newer/never examine it and are handled, never yields true only for ErrNotExist; the restore callback of withOverwriteCheck runs only on shouldOverwrite==true without error; (reuse-only-if-file-survives) verifyFile hands out a file state (the list of blobs already present, which the restorer then skips) only for regular files, and a state that still needs a restore only for targets with a single hard link — createFile replaces a target with several links by a new empty file, so reusing matches there leaves zeros where the skipped blobs belong; this is the genuine defect found with the seeded-change probe for this property, now fixed; (verify-reads-whole-blob) in verifyFile the hash is taken of the buffer ReadAt filled and only behind ReadAt's nil-error edge (the scratch buffer is reused between blobs and files, a short read leaves stale bytes in it), and the per-blob verdict stored is id.Equal(that hash) (added after a seeded change that hashed before the short-read test); (examined-or-nothing-reused) after a verifyFile error other than 'does not exist' the restore callback gets a non-nil state, which switches sparse writing off — an unreadable existing target was treated as missing and kept its old bytes in the zero runs (genuine defect, demonstrated, fixed); (link-target-only-when-restored) a name enters the hard-link index only inside the callback of withOverwriteCheck, i.e. when it is really restored — with --overwrite never/if-newer the other names were linked to an existing file that had been left untouched (genuine defect, demonstrated, fixed); (restore-errors-propagate) at each call site of the functions that carry file content to the target (restoreFiles, downloadPack, downloadBlobs, writeToFile, createFile, ensureSize, the tree walk, RestoreTo, VerifyFiles …) the error is bound and, from its non-nil edge, no return is reached unless it was returned or handed to the error callback — a restore in which a write failed is not a successful one (added after the mutant sweep). (existing-file-cut-to-size) ensureSize — the only place where a reused target file loses bytes beyond the wanted size, and the only thing that happens to a zero-length file — reports success only after truncateSparse or Truncate succeeded or the file was found to be no longer than createSize (added after a seeded change that returned early for createSize == 0). (failed-files-not-dressed-up) the error hook handed to the file restorer records the location of every file whose content failed, and the second pass applies the snapshot's metadata to a restored file only on the edge on which that record has no entry — an incomplete file had received the snapshot's mtime and size, and a repeated restore with --overwrite if-changed, which trusts the two, skipped it (genuine defect, demonstrated, fixed). (if-changed-reads-content) verifyFile answers 'needs no restore' on equal size and modification time alone when asked to trust the mtime, which --overwrite if-changed does: a target file of the same length and mtime with other content survives a successful restore — documented behaviour, a counterexample to the statement's 'different content', listed as a known finding. Not decided: equality of content and size after restore (runtime values).",
 		Assumptions: commonAssumptions,
 		Technique:   "static analysis: CFG edge cuts + specialised path evaluation per overwrite mode (go/ssa)",
 		Run: func(c *eng.Ctx) {
 			ruleCreateFile(c)
+			ruleExistingFileCutToSize(c)
+			ruleFailedFilesNotDressedUp(c)
+			ruleIfChangedReadsContent(c)
 			ruleSparseOff(c)
 			ruleOverwriteModes(c)
 			ruleReuseOnlyIfFileSurvives(c)
@@ -84,6 +87,10 @@ func init() {
 			ruleRestoreErrorsPropagate(c)
 		},
 		Controls: []Control{
+			{Name: "failed-files-get-snapshot-metadata", File: "internal/restorer/restorer.go",
+				Old: "				if _, failed := failedFiles[location]; failed {", New: "				if _, failed := failedFiles[target]; failed && node.Size == 0 {", Rule: "failed-files-not-dressed-up"},
+			{Name: "longer-file-not-truncated-when-small", File: "internal/restorer/fileswriter.go",
+				Old: "	} else if fi.Size() > createSize {\n		// file is too long must shorten it", New: "	} else if fi.Size() > createSize && createSize > 4096 {\n		// file is too long must shorten it", Rule: "existing-file-cut-to-size"},
 			{Name: "failed-pack-download-ignored", File: "internal/restorer/filerestorer.go",
 				Old: "			if err := r.downloadPack(ctx, pack); err != nil {\n				return err\n			}\n", New: "			if err := r.downloadPack(ctx, pack); err != nil {\n				debug.Log(\"download failed: %v\", err)\n			}\n", Rule: "restore-errors-propagate"},
 			{Name: "unexaminable-target-treated-as-missing", File: "internal/restorer/restorer.go",
